@@ -1458,6 +1458,12 @@ class Router(NetworkNode, discriminator="router"):
             frame.ip.dst_ip_address
         )
         target_mac = self.software_manager.arp.get_arp_cache_mac_address(frame.ip.dst_ip_address)
+        # a destination on a directly connected subnet leaves through that subnet's interface, whichever interface its
+        # frames were heard on (two subnets can share one broadcast domain)
+        for connected_interface in self.network_interfaces.values():
+            if connected_interface.enabled and frame.ip.dst_ip_address in connected_interface.ip_network:
+                network_interface = connected_interface
+                break
 
         if not target_mac:
             self.sys_log.info(f"Frame dropped as ARP cannot be resolved for {frame.ip.dst_ip_address}")
